@@ -83,8 +83,8 @@ def nf_roots(n, out=None):
     if not isinstance(n, tuple):
         return out
     k = n[0]
-    if k in ("param", "const", "lit", "local", "unknown"):
-        out.append(n)
+    if k in ("param", "const", "lit", "local", "unknown", "tok"):
+        out.append(n)      # ("tok", label): a loop element named by the sampler
     elif k == "field":
         nf_roots(n[1], out)
     elif k == "call":
@@ -1403,6 +1403,11 @@ class Extractor:
                 self.NF.bind_let(s, env2, rest)
                 if s.get("els") is not None:
                     # `let PAT = init else { return .. }` : the rest of the block runs under "init is PAT"
+                    rv = _returned_value({"k": "Block", "b": s["els"]})
+                    if rv is not None and _is_failure_value(rv) and H.strip(rv).get("k") == "Call":
+                        # `let Some(x) = e else { return Err(..) }` is `let x = e.ok_or(..)?`: when the pattern does not match there is
+                        # no output at all, so the rest is not conditional (as for `?`)
+                        continue
                     base = self.NF.nf(s["init"], env2)
                     cur_ctx = cur_ctx + (("alt", ("islet", pat_label(s["pat"]), base), True),)
                 continue
